@@ -102,7 +102,7 @@ struct Inst {
     std::map<int, TmrSrc> tmrs;   // keyed by period index
     std::set<std::pair<int, long>> other_srcs; // (kind, key index) for the registry profile
     // token bucket
-    long tb_rate = 0, tb_burst = 0; bool tb_on = false;
+    long tb_rate = 0, tb_burst = 0; bool tb_on = false; long tb_refused = 0; double tb_last_call_at = 0, tb_running_since = 0; int tb_dispatches_since_call = 0;
     std::vector<std::pair<double, double>> tb_calls; // (t_before, t_after) of accepted consuming calls since configuration
     uint64_t sent = 0, recv = 0;
     int handler_invocations = 0;
